@@ -28,8 +28,8 @@ type c13Evidence struct {
 }
 
 type c13Pending struct {
-	ev *c13Evidence
-	tx []byte
+	ev   *c13Evidence
+	tx   []byte
 	when string
 }
 
